@@ -366,3 +366,96 @@ void h_s_erase(void)
     VF_END();
 }
 #endif
+
+#if defined(VF_S) && VF_S == 5
+/* ---- cstl_bintree_insert(bt, e, hint): the descent from the root (no hint) or from the hint node
+ *      follows the comparison results (< 0 left, otherwise right: equal keys go right) down a path
+ *      of 0..3 nodes to a free slot and links the new node there; nothing else is written, the
+ *      in-order sequence gains exactly the new node next to the last path node, size + 1.  The
+ *      subtrees hanging off the path are opaque, the comparison is a stub that answers as the
+ *      chosen path prescribes (magnitudes 1..3, and 0 -- an equal key -- for every other right turn). ---------- */
+#ifndef VF_INS_LO
+#define VF_INS_LO 0
+#define VF_INS_HI 3
+#endif
+static int vf_ins_dir[4];                 /* direction at path node k: 0 left, 1 right          */
+static int vf_ins_len;
+static _Bool vf_ins_bad;
+static int vf_ins_cmp(const void * a, const void * b, void * p)
+{
+    const int k = IDX((const struct cstl_bintree_node *)b);
+    static unsigned calls;
+    const int m = 1 + (int)(calls % 3);           /* concrete magnitudes 1, 2, 3; every other right turn is an equal key */
+    calls++;
+    if (a != (const void *)BNP(9) || p != (void *)&vf_ins_bad || k < 0 || k >= vf_ins_len) {
+        vf_ins_bad = 1;                    /* only (new node, path node) pairs are compared, with the tree's private pointer */
+        return 0;
+    }
+    return vf_ins_dir[k] == 0 ? -m : ((calls & 1) ? m : 0);
+}
+cstl_compare_func_t * const vf_anchor_ins_cmp = vf_ins_cmp;
+static void vf_insert_case(int pcase, int hinted, int len, int dirs, int atoms)
+{
+    struct cstl_bintree_node * bn = BNP(9), * last = NULL, * x;
+    int before[2 * NN], nb, k, j, pos; size_t size0; struct cstl_bintree_node * root0; struct cstl_rbtree_node above0;
+    vf_orient(0);
+    vf_ins_len = len; vf_ins_bad = 0;
+    for (k = 0; k < len; k++) {
+        struct cstl_bintree_node * n = BNP(k);
+        vf_ins_dir[k] = (dirs >> k) & 1;
+        /* the child on the path is the next path node (or the free slot at the end), the other child an opaque subtree or nothing */
+        if (vf_ins_dir[k] == 0) { n->l = k + 1 < len ? BNP(k + 1) : NULL; n->r = ((atoms >> k) & 1) ? vf_mk_atom_req(4 + k, 2, n) : NULL; }
+        else                    { n->r = k + 1 < len ? BNP(k + 1) : NULL; n->l = ((atoms >> k) & 1) ? vf_mk_atom_req(4 + k, 2, n) : NULL; }
+        if (k + 1 < len) BNP(k + 1)->p = n;
+        last = n;
+    }
+    bn->p = &vf_far.n; bn->l = &vf_far.n; bn->r = &vf_far.n;      /* stale links of the new node */
+    for (k = 0; k < NN; k++) vf_n[k].c = (k & 1) ? RED : BLK;
+    if (len == 0) { vf_bt.root = NULL; vf_bt.size = nondet_size_t(); vf_slot = &vf_bt.root; vf_top = NULL; }
+    else { vf_place(BNP(0), pcase); }
+    vf_bt.off = 0; vf_bt.cmp.func = vf_ins_cmp; vf_bt.cmp.priv = &vf_ins_bad;
+    vf_nseq = 0; vf_inorder(vf_top, 0); nb = vf_nseq; for (k = 0; k < nb; k++) before[k] = vf_seq[k];
+    vf_snapshot(); size0 = vf_bt.size; root0 = vf_bt.root; above0 = vf_above;
+    __CPROVER_assume(size0 < SIZE_MAX);
+    cstl_bintree_insert(&vf_bt, bn, hinted ? (void *)BNP(0) : NULL);
+    VF_ASSERT(!vf_ins_bad, "insert: only the new element is compared, against nodes on the descent path, with the tree's private pointer");
+    VF_ASSERT(vf_bt.size == size0 + 1, "insert: size grows by one");
+    VF_ASSERT(bn->l == NULL && bn->r == NULL, "insert: the new node is a leaf (stale links overwritten)");
+    if (len == 0) {
+        VF_ASSERT(vf_bt.root == bn && bn->p == NULL, "insert into an empty tree: the new node is the root");
+        return;
+    }
+    VF_ASSERT(bn->p == last && (vf_ins_dir[len - 1] == 0 ? last->l == bn : last->r == bn), "insert: linked in the free slot at the end of the descent, both ways");
+    x = *vf_slot;
+    VF_ASSERT(x == BNP(0) && vf_links(x, vf_snap[0].n.p, 0), "insert: the top of the neighbourhood stays, every parent link points back");
+    vf_nseq = 0; vf_inorder(x, 0);
+    VF_ASSERT(vf_nseq == nb + 1, "insert: exactly one item more");
+    /* the new node sits immediately before (left slot) or after (right slot) the last path node */
+    for (pos = 0; pos < nb && before[pos] != len - 1; pos++) { }
+    if (vf_ins_dir[len - 1] == 1) pos++;
+    for (k = 0, j = 0; k < vf_nseq; k++) {
+        if (k == pos) { VF_ASSERT(vf_seq[k] == 9, "insert: the new node takes its in-order place next to the last path node"); }
+        else { VF_ASSERT(j < nb && vf_seq[k] == before[j], "insert: the in-order sequence of the other items is unchanged"); j++; }
+    }
+    vf_atoms_untouched();
+    for (k = 0; k < len; k++) {
+        VF_ASSERT(vf_n[k].n.p == vf_snap[k].n.p && (k == len - 1 || (vf_n[k].n.l == vf_snap[k].n.l && vf_n[k].n.r == vf_snap[k].n.r)) && vf_n[k].c == vf_snap[k].c,
+                  "insert: the path nodes keep their links and colours (only the free slot of the last one is filled)");
+    }
+    VF_ASSERT(vf_slot == &vf_bt.root ? vf_bt.root == root0 : (vf_bt.root == root0 && vf_above.n.p == above0.n.p && vf_above.n.l == above0.n.l && vf_above.n.r == above0.n.r),
+              "insert: the root pointer and everything above the neighbourhood are not written");
+}
+void h_s_insert(void)
+{
+    int pc, hinted, len, dirs, atoms;
+    for (len = VF_INS_LO; len <= VF_INS_HI; len++) for (hinted = 0; hinted < 2; hinted++) for (pc = 0; pc < 3; pc++)
+        for (dirs = 0; dirs < (1 << len); dirs++) for (atoms = 0; atoms < (1 << len); atoms++) {
+            if (len == 0 && (hinted || pc)) continue;
+            if (!hinted && pc != 0) continue;          /* without a hint the descent starts at the root slot */
+            VF_SCEN(1);
+            vf_insert_case(pc, hinted, len, dirs, atoms);
+        }
+    VF_REACH(1, "all insert neighbourhood shapes visited");
+    VF_END();
+}
+#endif
